@@ -202,6 +202,7 @@ func check(id, tier string, seed int64, workers int, verbose bool, only string, 
 	for _, f := range sp.MapOrder {
 		cfg.MapOrderFuncs[f] = true
 	}
+	cfg.NoIfConv = os.Getenv("SYMGO_NOIFCONV") != ""
 	cfg.MaxPreempt = sp.Preempt[0]
 	if tier == "thorough" {
 		cfg.MaxPreempt = sp.Preempt[1]
@@ -217,6 +218,7 @@ func check(id, tier string, seed int64, workers int, verbose bool, only string, 
 	}
 	var outs []runOut
 	totalPaths, totalDecisions, totalQueries := int64(0), int64(0), int64(0)
+	ifConverted, ifBailed := int64(0), int64(0)
 	var solverTime time.Duration
 	validated := 0
 	diffChecked := 0
@@ -297,6 +299,8 @@ func check(id, tier string, seed int64, workers int, verbose bool, only string, 
 		totalPaths += res.Paths
 		totalDecisions += res.Decisions
 		totalQueries += res.Queries
+		ifConverted += res.IfConverted
+		ifBailed += res.IfBailed
 		solverTime += res.SolverTime
 		if len(res.Diffs) > 0 {
 			n, bad := solverDiff(filepath.Join(workDir, r.Name), res.Diffs)
@@ -311,8 +315,8 @@ func check(id, tier string, seed int64, workers int, verbose bool, only string, 
 		}
 		boundsText = append(boundsText, b)
 		if verbose {
-			fmt.Fprintf(os.Stderr, "run %s args=%v: paths=%d aborted=%d decisions=%d queries=%d solver=%v wall=%v steps=%d maxevents=%d viol=%d\n",
-				r.Name, args, res.Paths, res.Aborted, res.Decisions, res.Queries, res.SolverTime, res.Wall, res.Steps, res.MaxEvents, len(res.Violations))
+			fmt.Fprintf(os.Stderr, "run %s args=%v: paths=%d aborted=%d decisions=%d queries=%d solver=%v wall=%v steps=%d maxevents=%d viol=%d ifconv=%d/%d\n",
+				r.Name, args, res.Paths, res.Aborted, res.Decisions, res.Queries, res.SolverTime, res.Wall, res.Steps, res.MaxEvents, len(res.Violations), res.IfConverted, res.IfBailed)
 			var ks []string
 			for k, v := range res.AssertReach {
 				ks = append(ks, fmt.Sprintf("   assert %-50s %d", k, v))
@@ -523,6 +527,8 @@ func check(id, tier string, seed int64, workers int, verbose bool, only string, 
 			"solver_time_s":                       solverTime.Seconds(),
 			"solver":                              "z3 4.8.12 (QF_BV, incremental)",
 			"queries_rechecked_by_z3new_and_cvc5": diffChecked,
+			"branches_if_converted":               ifConverted,
+			"if_conversions_abandoned":            ifBailed,
 			"assert_and_cover_reach":              reach,
 			"outside_claim":                       sp.OutsideClaim,
 			"stubs":                               stubList(sp),
